@@ -97,6 +97,8 @@ func Execute(t *testing.T, job *Job) (res Result) {
 	r.Pass = 1
 	if job.Prop != "INVENTORY" && needsInventory[job.Prop] {
 		r.Sites = Inventory(t)
+		// the inventory run drew from its own tape: what the recorder file holds from here on is this job's tape only
+		resetTapeFile()
 	}
 	scen, ok := Scenarios[job.Prop+"/"+job.Profile]
 	if !ok {
